@@ -175,6 +175,10 @@ def run(prog: Program, col: Collector, tier: str, refs: Optional[Refs] = None, c
     col.rule("R06.10", "the batch / event boundary of a tensor's array is computed from that tensor's own event rank", floor=2)
     _boundary_of_own_tensor(prog, col, refs, cat)
 
+    # ---------------------------------------------------------------- R06.11
+    col.rule("R06.11", "axis labels for a tensor's array are generated in the order of that tensor's own inputs", floor=2)
+    _axis_labels_in_layout_order(prog, col, refs, cat)
+
     # ---------------------------------------------------------------- R06.5
     col.rule("R06.5", "dimension parameters are normalised modulo the rank in every branch before use as indices", floor=2)
     _axis_normalisation(prog, col, refs, cat)
@@ -774,3 +778,51 @@ def _boundary_of_own_tensor(prog: Program, col: Collector, refs: Refs, cat: Cata
                       f"`{norm(b)}` splits the array of `{arr_owner}` using the event rank of `{r_owner}`: the batch / event boundary is misplaced whenever the two "
                       "ranks differ (dimensions are inserted or cut on the wrong side of the event shape)", f.loc(b))
     col.cur.analysed["boundary_computations"] = n
+
+
+# ---------------------------------------------------------------------- R06.11
+def _axis_labels_in_layout_order(prog: Program, col: Collector, refs: Refs, cat: Catalogue):
+    """The batch axes of `x.data` are laid out in the order of `x.inputs` (R06.4).  Code that labels those axes with symbols (einsum
+    subscripts built by `"".join(sym[k] for k in ...)` while looping over operands) must iterate `x.inputs` itself: iterating the
+    union of all inputs filtered by membership labels the axes in another order whenever the operands list their inputs
+    differently, so an axis is contracted against the wrong one."""
+    n = 0
+    for f in prog.funcs.values():
+        if isinstance(f.node, ast.Lambda):
+            continue
+        for j in walk_no_nested(f.node):
+            if not (isinstance(j, ast.Call) and isinstance(j.func, ast.Attribute) and j.func.attr == "join" and isinstance(j.func.value, ast.Constant)
+                    and j.func.value.value == "" and len(j.args) == 1 and isinstance(j.args[0], (ast.GeneratorExp, ast.ListComp))):
+                continue
+            g = j.args[0]
+            gen = g.generators[0]
+            if not (isinstance(g.elt, ast.Subscript) and isinstance(gen.target, ast.Name) and isinstance(g.elt.slice, ast.Name) and g.elt.slice.id == gen.target.id):
+                continue  # sym[k] for k in ...
+            # the tensor whose axes are being labelled: an enclosing loop / comprehension variable T with `T.inputs` in the iterable or the filter
+            owners = set()
+            for x in ast.walk(gen.iter):
+                if isinstance(x, ast.Attribute) and x.attr in ("inputs",) and isinstance(x.value, ast.Name):
+                    owners.add(x.value.id)
+            for c in gen.ifs:
+                for x in ast.walk(c):
+                    if isinstance(x, ast.Attribute) and x.attr in ("inputs", "input_vars") and isinstance(x.value, ast.Name):
+                        owners.add(x.value.id)
+            loop_vars = set()
+            for a in f.module.ancestors(j):
+                if a is f.node:
+                    break
+                if isinstance(a, ast.For):
+                    loop_vars |= {y.id for y in ast.walk(a.target) if isinstance(y, ast.Name)}
+                if isinstance(a, (ast.ListComp, ast.GeneratorExp)):
+                    for gg in a.generators:
+                        loop_vars |= {y.id for y in ast.walk(gg.target) if isinstance(y, ast.Name)}
+            owners &= loop_vars
+            if len(owners) != 1:
+                continue
+            T = next(iter(owners))
+            n += 1
+            good = not gen.ifs and isinstance(gen.iter, ast.Attribute) and gen.iter.attr == "inputs" and isinstance(gen.iter.value, ast.Name) and gen.iter.value.id == T
+            col.check(good, f"{f.fq}::{norm(j)[:70]}", f"the labels of `{T}`'s batch axes follow `{T}.inputs`",
+                      f"the labels for the batch axes of `{T}` are generated by iterating `{norm(gen.iter)}`{' filtered by ' + norm(gen.ifs[0]) if gen.ifs else ''}, not `{T}.inputs`: "
+                      f"the array of `{T}` is laid out in the order of its own inputs, so operands that list their inputs in different orders get their axes mislabelled", f.loc(j))
+    col.cur.analysed["axis_label_sites"] = n
